@@ -61,6 +61,12 @@ TEMPLATES3 = [
     "A AND B OR A AND C OR B AND C", "(A OR B) AND (B OR C) AND (A OR C)", "A = B", "A <> B", "(A) IS TRUE", "NOT (A) IS NULL",
     "CASE WHEN A THEN B ELSE C END", "CASE WHEN A THEN TRUE ELSE FALSE END", "IF(A, B, C)", "COALESCE(A, B)", "A AND NULL", "A OR NULL",
     "A AND TRUE", "A OR FALSE", "A AND FALSE", "A OR TRUE", "NOT (A AND TRUE)", "(A AND B) AND (NOT A OR C)",
+    # multi-branch conditionals with constant / NULL conditions in every position
+    "CASE WHEN A THEN B WHEN TRUE THEN C END", "CASE WHEN A THEN B WHEN FALSE THEN C END", "CASE WHEN TRUE THEN A WHEN B THEN C END",
+    "CASE WHEN FALSE THEN A WHEN B THEN C END", "CASE WHEN NULL THEN A WHEN B THEN C ELSE A END", "CASE WHEN A THEN B WHEN C THEN A ELSE B END",
+    "CASE WHEN A THEN TRUE WHEN B THEN FALSE END", "CASE WHEN A THEN B WHEN B THEN C WHEN TRUE THEN A END", "CASE WHEN A THEN B END",
+    "IF(A, B, NULL)", "IF(NULL, A, B)", "IF(TRUE, A, B)", "IF(A, TRUE, FALSE)", "IF(A, FALSE, TRUE)", "COALESCE(A, NULL, B)", "COALESCE(NULL, A)",
+    "COALESCE(A, TRUE)", "COALESCE(A, FALSE) = B", "CASE WHEN A THEN B ELSE C END = B", "NOT CASE WHEN A THEN B ELSE C END",
 ]
 
 
@@ -81,7 +87,12 @@ def arithmetic():
     out = []
     terms = ["x", "y", "x + 1", "x - 1", "1 - x", "x * 2", "-x", "x + y", "x * -1", "0 - x", "x + 1 + 1", "1 + x - 2", "x * 0", "x + 0", "0 + x",
              "x * 1", "2 * x", "x - x", "x + 1 - 1", "-(-x)", "-(x + 1)", "COALESCE(x, 1)", "COALESCE(x, y, 0)", "COALESCE(NULL, x)",
-             "CASE WHEN x > 0 THEN 1 ELSE 0 END", "CASE x WHEN 1 THEN 2 ELSE 0 END", "NULLIF(x, 0)", "IF(x > 1, x, 1)", "1 + 1", "2 * 2 - 1"]
+             "CASE WHEN x > 0 THEN 1 ELSE 0 END", "CASE x WHEN 1 THEN 2 ELSE 0 END", "NULLIF(x, 0)", "IF(x > 1, x, 1)", "1 + 1", "2 * 2 - 1",
+             "CASE WHEN x = 1 THEN 5 WHEN TRUE THEN 6 END", "CASE WHEN x = 1 THEN 2 WHEN y = 1 THEN 0 WHEN TRUE THEN 1 END",
+             "CASE WHEN x > 0 THEN 1 WHEN FALSE THEN 2 ELSE 0 END", "CASE WHEN TRUE THEN x WHEN y > 0 THEN 1 END", "CASE WHEN x IS NULL THEN 0 WHEN TRUE THEN x END",
+             "CASE x WHEN 1 THEN 2 WHEN 1 THEN 0 END", "COALESCE(x, NULL, 1)", "COALESCE(NULL, x, y)", "COALESCE(x, y, NULL)", "COALESCE(x, NULL)",
+             "COALESCE(x, 1, y)", "COALESCE(1, x)", "IF(x > 0, 1, NULL)", "IF(NULL, x, y)", "NULLIF(x, x)", "NULLIF(x, NULL)", "x * 0 + y", "0 * x", "x - 0", "x * y * 0",
+             "x + y - y", "x + (1 - 1)", "(x + 1) * 2", "2 - (x + 1)", "-(1 - x)", "1 - -x"]
     for t in terms:
         for op in CMPS:
             for c in CONSTS:
